@@ -964,7 +964,7 @@ class IssuerFingerprint(Signature):
         elif self.version == 5:  # pragma: no cover
             fpr_len = 32
         else:  # pragma: no cover
-            fpr_len = self.header.length - 1
+            fpr_len = self.header.length - 2
 
         self.issuer_fingerprint = packet[:fpr_len]
         del packet[:fpr_len]
@@ -1036,7 +1036,7 @@ class IntendedRecipient(Signature):
         elif self.version == 5:  # pragma: no cover
             fpr_len = 32
         else:  # pragma: no cover
-            fpr_len = self.header.length - 1
+            fpr_len = self.header.length - 2
 
         self.intended_recipient = packet[:fpr_len]
         del packet[:fpr_len]
